@@ -323,6 +323,18 @@ inline KV genGridIndexCase()
         radii.resize(1);
         why = "one radius";
     }
+    else if (bad == 5 && nt >= 4) {
+        // two extra angles in the SECOND half turn: every angle of [0, pi) still has its opposite, the new ones have none
+        const int m = nt / 2;
+        const int j1 = m + rint(0, m - 1), j2 = m + rint(0, m - 1);
+        std::vector<double> extra = {0.5 * (angles[j1] + angles[j1 + 1]), 0.25 * angles[j2] + 0.75 * angles[j2 + 1]};
+        if (extra[0] != extra[1]) {
+            for (double e : extra)
+                angles.push_back(e);
+            std::sort(angles.begin(), angles.end());
+            why = "angles of the second half turn without antipodal partner";
+        }
+    }
     if (!why.empty()) {
         c.putI("expect_reject", 1);
         c.putS("reject_why", why);
